@@ -52,7 +52,7 @@ Notation tables_ok := (@tables_ok key).
 
 Lemma in_use_same (a b : node key) x : same_tables a b -> in_use a x = in_use b x.
 Proof.
-  intros (_ & _ & _ & _ & _ & Hc & Hr & He). unfold in_use.
+  intros (_ & _ & _ & _ & _ & _ & Hc & Hr & He). unfold in_use.
   rewrite (cores_has circuit_core _ _ x Hc), (cores_has relay_core _ _ x Hr), (cores_has exit_core _ _ x He). reflexivity.
 Qed.
 
@@ -62,7 +62,7 @@ Lemma ok_same (c : cnode) t' created' pend' :
   tables_ok c -> same_tables (cn_tab c) t' -> (forall p, In p (cn_pending c) -> In p pend') ->
   tables_ok (mkCN t' created' (cn_create c) pend' (cn_max_joined c)).
 Proof.
-  intros [R H E C D] S P. pose proof S as (_ & _ & _ & _ & _ & Hc & Hr & He).
+  intros [R H E C D] S P. pose proof S as (_ & _ & _ & _ & _ & _ & Hc & Hr & He).
   constructor; cbn [cn_tab cn_pending cn_create].
   - intros x Hx. unfold ids_in in *. rewrite <- (cores_has circuit_core _ _ x Hc) in Hx.
     rewrite <- (cores_has relay_core _ _ x Hr), <- (cores_has exit_core _ _ x He). apply R. exact Hx.
@@ -304,7 +304,7 @@ Qed.
 
 Lemma keys_kept_same (a b : node key) : same_tables a b -> keys_kept a b.
 Proof.
-  intros (_ & _ & _ & _ & _ & _ & Hr & He). split.
+  intros (_ & _ & _ & _ & _ & _ & _ & Hr & He). split.
   - intros x r r' H1 H2. pose proof (cores_assoc relay_core _ _ Hr x) as C. rewrite H1, H2 in C.
     unfold relay_core in C. injection C as _ Hh _ _. rewrite Hh. reflexivity.
   - intros x e e' H1 H2. pose proof (cores_assoc exit_core _ _ He x) as C. rewrite H1, H2 in C. symmetry. exact C.
